@@ -23,11 +23,20 @@ pub struct SessionHandle {
     pub session_id: String,
     sender: broadcast::Sender<Event>,
     events: Arc<Mutex<Vec<Event>>>,
+    started: Arc<std::sync::atomic::AtomicBool>,
 }
 
 impl SessionHandle {
     pub fn subscribe(&self) -> broadcast::Receiver<Event> {
         self.sender.subscribe()
+    }
+
+    /// A session is one run: its stream starts at seq 0 with `session_started`. Returns true
+    /// for the first caller only; a second run on the same stream would restart the numbering.
+    pub(crate) fn claim_start(&self) -> bool {
+        !self
+            .started
+            .swap(true, std::sync::atomic::Ordering::SeqCst)
     }
 
     pub(crate) async fn events_snapshot(&self) -> Vec<Event> {
@@ -120,6 +129,7 @@ impl SessionEngine {
             session_id,
             sender,
             events: Arc::new(Mutex::new(Vec::new())),
+            started: Arc::new(std::sync::atomic::AtomicBool::new(false)),
         }
     }
 
